@@ -894,6 +894,21 @@ func (env *Env) addrOf(v Val) Val {
 	}
 	t := env.e.W.UF(key+"."+sortID(env.e.sorts().SortOf(l.RootTy)), sorts, "Int", args...)
 	env.e.emit(fmt.Sprintf("(assert (not (= %s 0)))", t))
+	// two fields of non-zero size of one object have different addresses
+	if len(l.Path) > 0 && l.Path[0].Field >= 0 && !l.Elem && !strings.Contains(t, "q.") && !strings.Contains(t, "!q") {
+		if st, ok := l.RootTy.Underlying().(*types.Struct); ok && l.Path[0].Field < st.NumFields() {
+			sz := types.SizesFor("gc", "amd64")
+			if sz.Sizeof(st.Field(l.Path[0].Field).Type()) > 0 {
+				rs := sortID(env.e.sorts().SortOf(l.RootTy))
+				for _, o := range env.e.addrTerms {
+					if o.rootSort == rs && o.field != l.Path[0].Field && o.term != t {
+						env.e.emit(fmt.Sprintf("(assert (=> (= %s %s) (not (= %s %s))))", o.ref, l.Ref, o.term, t))
+					}
+				}
+				env.e.addrTerms = append(env.e.addrTerms, addrTerm{t, rs, l.Ref, l.Path[0].Field})
+			}
+		}
+	}
 	v.T = t
 	return v
 }
